@@ -4,9 +4,9 @@ package main
 // dispatch, and the default (havoc) treatment of uncontracted callees.
 
 import (
-	"go/token"
-	"go/ast"
 	"fmt"
+	"go/ast"
+	"go/token"
 	"go/types"
 	"os"
 	"strings"
